@@ -362,6 +362,13 @@ def run_fromjson(rep, cache, have_model, stream, cases, expect_values=None):
 
 def replay(ctx, rep, cache, line):
     toks = line.split(" ")
+    f = json.load(open(ctx["replay"]))["failing_input"]
+    if f.get("stream", "").endswith("/oracle") and toks[0] == "wire.fromjson":
+        # a malformed-JSON class that must be rejected: re-evaluate on the implementation alone
+        o = C.run_lines(VHJ, [" ".join(toks[:3] + ["-"])], shards=1)[0]
+        if o != "E":
+            rep.add_failure("replay/oracle", line, o[:800], "E", f.get("why", "malformed JSON accepted"))
+        return
     if toks[0] == "wire.fromjson":
         tab = W.with_oracles(cache, ["wire.need %s j %s" % (toks[1], toks[2])], ctx["have_model"])[0]
         line = " ".join(toks[:3] + [tab])
